@@ -1374,6 +1374,10 @@ class FuncTranslator:
             for n, cn in zip(acc, acc_c):
                 env_b[n] = Val(cn, env[n].t)
             body_s, body_env = self.branch_tuple(list(st.body), env_b, acc)
+        if pat.startswith("'(") and isinstance(it.t.t, TTup) and any(isinstance(x, TB) for x in it.t.t.ts):
+            # a boolean component gives Coq nothing to infer the pair type from (`if b then ...`): bind the pair with its type
+            body_s = "let %s := p_ in " % pat + body_s
+            pat = '(p_ : %s)' % it.t.t.coq()
         outs = []
         for n in acc:
             outs.append(self.coerce(body_env[n], env[n].t))
